@@ -129,15 +129,19 @@ fn named_inputs_never_panic() {
         "é}", "{é", "\\catcode`é=1 é", "\u{10FFFF}\\undefinedcommand", "\\count300000=1 é", "é\n\n\\undefinedcommand é\n",
         "\u{feff}\\undefinedcommand", "\t\\undefinedcommand\té", "\\input é", "\\csname é\\endcsname \\undefinedcommand",
     ];
-    for src in srcs {
-        let src_owned = src.to_string();
+    // every interaction mode, so that every recovery path runs (C09: "in any interaction mode")
+    for mode in ["", "\\errorstopmode ", "\\scrollmode ", "\\nonstopmode ", "\\batchmode "] {
+    for src in srcs.iter().copied().chain(["\\count1=x \\count2=y \\dimen1=1xx \\undefinedcommand \\the\\relax \\fi \\else }", "\\multiply\\count1 by 2147483647 \\count1=1 \\multiply\\count1 by 2147483647 \\multiply\\count1 by 2 \\divide\\count1 by 0 \\dimen1=16384pt \\catcode 55296=1 \\count70000=1 "]) {
+        let src_owned = format!("{mode}{src}");
+        let shown = src_owned.clone();
         let r = std::panic::catch_unwind(move || {
             let mut vm = vm::VM::<StdLibState>::new();
             vm.push_source("input.tex", src_owned).unwrap();
             match crate::script::run_to_string(&mut vm) { Ok(s) => s, Err(err) => format!("{err}") }
         });
         if r.is_err() {
-            println!("WITNESS {{\"fn\": \"run\", \"source\": \"{}\", \"observed\": \"panic\", \"expected\": \"success or a structured error that renders to text\"}}", src.escape_default().to_string().replace('"', "'"));
+            println!("WITNESS {{\"fn\": \"run\", \"source\": \"{}\", \"observed\": \"panic\", \"expected\": \"success or a structured error that renders to text\"}}", shown.escape_default().to_string().replace('"', "'").replace('\\', "/"));
         }
+    }
     }
 }
